@@ -49,6 +49,7 @@ Truthy(v) ==
       \* a defined or sized Go type (type Flag bool, int8, float32 ...) is as truthy as its underlying value
       [] v.t = "named" -> (CASE v.u.t = "bool" -> v.u.b [] v.u.t = "int" -> v.u.i # 0 [] v.u.t = "dec" -> v.u.m # 0
                              [] v.u.t = "str" -> v.u.s # <<>> [] OTHER -> TRUE)
+      [] v.t = "nilptr" -> FALSE         \* a nil pointer of some Go type is null
       [] OTHER        -> TRUE
 
 \* Printed form where the property fixes one (null -> "", int -> decimal digits,
@@ -83,14 +84,14 @@ RoundDec(m, e, p, method) ==
                      [] OTHER -> IF 2 * r > scale THEN q + 1 ELSE IF 2 * r < scale THEN q ELSE (IF m >= 0 THEN q + 1 ELSE q)
          IN IF p >= 0 THEN [m |-> q2, e |-> p] ELSE [m |-> q2 * Pow10(-p), e |-> 0]
 \* number_format: the exact decimal m * 10^-e rounded to p >= 0 places, digits grouped in threes from the right.
-\* Which way an exact tie goes and whether a negative number that rounds to zero keeps its sign is not stated
-\* by any property: NumFmtDetermined is false there and the generators drop the case.
+\* Which way an exact tie goes is not stated by any property: NumFmtDetermined is false there and the generators drop
+\* the case.  A negative number that rounds to zero is zero (there is no negative zero in decimal arithmetic).
 RECURSIVE GroupDigits(_, _)
 GroupDigits(ds, ts) == IF Len(ds) <= 3 THEN ds
                        ELSE GroupDigits(SubSeq(ds, 1, Len(ds) - 3), ts) \o ts \o SubSeq(ds, Len(ds) - 2, Len(ds))
 NumFmtTie(m, e, p) == p < e /\ 2 * (m % Pow10(e - p)) = Pow10(e - p)
 NumFmtScaled(m, e, p) == IF p >= e THEN m * Pow10(p - e) ELSE RoundDec(m, e, p, "common").m
-NumFmtDetermined(m, e, p) == ~NumFmtTie(m, e, p) /\ ~(m < 0 /\ NumFmtScaled(m, e, p) = 0)
+NumFmtDetermined(m, e, p) == ~NumFmtTie(m, e, p)
 NumFmtText(m, e, p, dp, ts) ==
     LET q == NumFmtScaled(m, e, p)
         a == IF q < 0 THEN -q ELSE q
